@@ -182,12 +182,18 @@ trait Elem:
 
 // ---- E: identity + value, everything instrumented
 
-struct E {
+/// The tracked element type: identity + value, every trait instrumented.
+/// `P` words of padding make it as large as wanted: `E` = 16 bytes, `B` = 96 bytes.
+#[repr(C)]
+struct EP<const P: usize> {
     id: u64,
     val: u64,
+    pad: [u64; P],
 }
+type E = EP<0>;
+type B = EP<10>;
 
-impl E {
+impl<const P: usize> EP<P> {
     fn s(&self) -> String {
         format!("{}:{}", self.id, self.val)
     }
@@ -198,7 +204,7 @@ impl E {
     }
 }
 
-impl Drop for E {
+impl<const P: usize> Drop for EP<P> {
     fn drop(&mut self) {
         let _p = pause();
         let ph = phase();
@@ -216,23 +222,23 @@ impl Drop for E {
     }
 }
 
-impl Clone for E {
-    fn clone(&self) -> E {
+impl<const P: usize> Clone for EP<P> {
+    fn clone(&self) -> Self {
         let _p = pause();
         if phase() == 2 {
-            return E { id: self.id, val: self.val };
+            return EP { id: self.id, val: self.val, pad: [0; P] };
         }
         self.touch("clone");
         fault_check(K_CLONE);
-        let n = E { id: fresh_id(), val: self.val };
+        let n = EP { id: fresh_id(), val: self.val, pad: [0; P] };
         live_insert(n.id);
         log(format!("C{}>{}", self.s(), n.s()));
         n
     }
 }
 
-impl PartialEq for E {
-    fn eq(&self, o: &E) -> bool {
+impl<const P: usize> PartialEq for EP<P> {
+    fn eq(&self, o: &Self) -> bool {
         let _p = pause();
         if phase() == 0 {
             self.touch("eq");
@@ -242,9 +248,9 @@ impl PartialEq for E {
         self.val == o.val
     }
 }
-impl Eq for E {}
-impl PartialOrd for E {
-    fn partial_cmp(&self, o: &E) -> Option<std::cmp::Ordering> {
+impl<const P: usize> Eq for EP<P> {}
+impl<const P: usize> PartialOrd for EP<P> {
+    fn partial_cmp(&self, o: &Self) -> Option<std::cmp::Ordering> {
         let _p = pause();
         if phase() == 0 {
             self.touch("cmp");
@@ -254,8 +260,8 @@ impl PartialOrd for E {
         Some(self.val.cmp(&o.val))
     }
 }
-impl Ord for E {
-    fn cmp(&self, o: &E) -> std::cmp::Ordering {
+impl<const P: usize> Ord for EP<P> {
+    fn cmp(&self, o: &Self) -> std::cmp::Ordering {
         let _p = pause();
         if phase() == 0 {
             self.touch("cmp");
@@ -265,7 +271,7 @@ impl Ord for E {
         self.val.cmp(&o.val)
     }
 }
-impl Hash for E {
+impl<const P: usize> Hash for EP<P> {
     fn hash<H: Hasher>(&self, h: &mut H) {
         let _p = pause();
         if phase() == 0 {
@@ -276,7 +282,7 @@ impl Hash for E {
         h.write_u64(self.val);
     }
 }
-impl fmt::Debug for E {
+impl<const P: usize> fmt::Debug for EP<P> {
     fn fmt(&self, f: &mut fmt::Formatter<'_>) -> fmt::Result {
         let _p = pause();
         if phase() == 0 {
@@ -292,10 +298,10 @@ impl Elem for E {
     const KIND: &'static str = "E";
     fn mk(id: u64, val: u64) -> E {
         live_insert(id);
-        E { id, val }
+        EP { id, val, pad: [0; 0] }
     }
     fn raw(id: u64, val: u64) -> MaybeUninit<E> {
-        MaybeUninit::new(E { id, val })
+        MaybeUninit::new(EP { id, val, pad: [0; 0] })
     }
     fn show(&self) -> String {
         self.s()
@@ -306,7 +312,7 @@ impl Elem for E {
     fn from_closure() -> E {
         let _p = pause();
         fault_check(K_CALL);
-        let n = E { id: fresh_id(), val: 9 };
+        let n = EP { id: fresh_id(), val: 9, pad: [0; 0] };
         live_insert(n.id);
         log(format!("F{}", n.s()));
         n
@@ -317,6 +323,40 @@ impl Elem for E {
         bag: &mut Vec<E>,
     ) -> Option<String> {
         pair_ops(buf, toks, bag)
+    }
+}
+
+// ---- u8
+
+impl Elem for B {
+    const KIND: &'static str = "B";
+    fn mk(id: u64, val: u64) -> B {
+        live_insert(id);
+        EP { id, val, pad: [0; 10] }
+    }
+    fn raw(id: u64, val: u64) -> MaybeUninit<B> {
+        MaybeUninit::new(EP { id, val, pad: [0; 10] })
+    }
+    fn show(&self) -> String {
+        self.s()
+    }
+    fn id_of(&self) -> Option<u64> {
+        Some(self.id)
+    }
+    fn from_closure() -> B {
+        let _p = pause();
+        fault_check(K_CALL);
+        let n = EP { id: fresh_id(), val: 9, pad: [0; 10] };
+        live_insert(n.id);
+        log(format!("F{}", n.s()));
+        n
+    }
+    fn special<const N: usize>(
+        _buf: &mut CircularBuffer<N, B>,
+        _toks: &[&str],
+        _bag: &mut Vec<B>,
+    ) -> Option<String> {
+        None
     }
 }
 
@@ -1676,6 +1716,7 @@ fn main() {
         out.flush().unwrap();
         let ok = match kvs["elem"] {
             "E" => dispatch!(n, E, &hdr, &ops, &mut out; 0, 1, 2, 3, 4, 5, 6, 7, 8, 9, 10, 11, 12, 13, 15, 16, 17, 31, 32, 33, 64, 65, 100, 128, 255, 256, 257, 1000),
+            "B" => dispatch!(n, B, &hdr, &ops, &mut out; 0, 1, 2, 3, 4, 5, 6, 7, 8, 9, 12, 13, 16, 17, 32, 33, 64, 100, 257, 1000),
             "u8" => dispatch!(n, u8, &hdr, &ops, &mut out; 0, 1, 2, 3, 4, 5, 6, 7, 8, 9, 12, 15, 16, 17, 32, 33, 64, 100, 255, 256, 257, 1000, 4096),
             "Z" => dispatch!(n, Z, &hdr, &ops, &mut out; 0, 1, 2, 3, 4,
                 65537, 4294967295, 4294967296, 4294967297,
